@@ -82,6 +82,16 @@ Example C06_nonvacuous :
     = (2%nat, 2%nat, 1%nat, 2%nat).
 Proof. vm_compute. repeat split. Qed.
 
+(* ---- app stage: the executable judgement of coq/Check is sound for the model on every scenario of the profile, and transfers
+   to every trace that agrees with the model's run ---- *)
+From BEI Require Check.C06c Proofs.JudgeC06P.
+Theorem C06_app_judgement_sound : forall sc, JudgeC06P.profile_C06b sc = true -> C06c.ok (sc, App.trace (App.run sc)) = 0%Z.
+Proof. exact JudgeC06P.C06_app_judgement_sound. Qed.
+
+Theorem C06_app_judgement_transfer : forall sc t, JudgeC06P.profile_C06b sc = true -> App.agree_full (sc, t) = true -> C06c.ok (sc, t) = 0%Z.
+Proof. exact JudgeC06P.C06_app_judgement_transfer. Qed.
+
+
 Print Assumptions C06_bsearch_position.
 Print Assumptions C06_insert_keeps_order.
 Print Assumptions C06_any_history.
@@ -95,3 +105,5 @@ Print Assumptions C06_higher_type_split.
 Print Assumptions C06_update_in_list_order.
 Print Assumptions C06_frame_log_in_order.
 Print Assumptions C06_update_keeps_shape.
+Print Assumptions C06_app_judgement_sound.
+Print Assumptions C06_app_judgement_transfer.
